@@ -14,6 +14,12 @@ for d in sorted(os.listdir(ROOT)):
     if not os.path.exists(os.path.join(sd, "patch.diff")):
         continue
     prop = d.split("-")[0]
+    mp0 = os.path.join(sd, "meta.json")
+    if os.path.exists(mp0):
+        with open(mp0) as f:
+            if json.load(f).get("obsolete_after_fix"):
+                print(d, "OBSOLETE (its mechanism was removed by a fix: commit)")
+                continue
     r = subprocess.run([sys.executable, "/verif/tools/seedtest.py", "run", sd, prop], text=True, capture_output=True)
     try:
         res = json.loads(r.stdout)
